@@ -1,1 +1,106 @@
+(* C11 — The file store never writes outside its working directory by default.
+
+   Model: Model/FileConfine.v (tree file system with symbolic links, hard links and
+   kernel path resolution; push / resolveWritePath / pushFile / pushDir /
+   extractTarDirectory / resolveRelToBase / ensureLinkPath as repaired on this branch;
+   cfg flags select the pre-repair behaviour).  Lemmas: Proofs/FileConfine.v.
+
+   view_at f p is everything an observer sees at physical location p (absent, directory,
+   file content, link text): "view_at f' p = view_at f p for every p not below wd" says
+   that nothing outside the working directory was created, overwritten, truncated,
+   replaced or deleted.  Inv is the invariant of a tree whose working directory is a
+   real directory, whose links below it are lexically confined and whose files below it
+   share no inode with the outside; it holds of any tree without links and hard links
+   (C11_example_inv) and is preserved by the store. *)
 From Oras Require Import Base.Prelude Model.FileConfine Proofs.FileConfine.
+
+(* every sequence of pushes (named blobs and archives to unpack, any titles, any entries,
+   any cwd) leaves everything outside the working directory untouched and keeps the
+   invariant.  Partial: push_ok excludes archives containing a symbolic-link entry named
+   exactly like the unpack directory itself. *)
+Theorem C11_confined_partial :
+  forall (wd cwd : path) (os : list pushop) (s s' : store) (oks : list bool),
+    Inv wd (st_fs s) -> Forall (push_ok wd) os ->
+    pushes cfg_fixed wd cwd s os = (s', oks) ->
+    Inv wd (st_fs s') /\
+    (forall p, inside wd p = false -> view_at (st_fs s') p = view_at (st_fs s) p).
+Proof. exact pushes_keeps. Qed.
+Print Assumptions C11_confined_partial.
+
+(* named blobs: no side condition at all *)
+Theorem C11_blobs_confined :
+  forall (wd cwd : path) (os : list pushop) (s s' : store) (oks : list bool),
+    Inv wd (st_fs s) -> Forall is_blob os ->
+    pushes cfg_fixed wd cwd s os = (s', oks) ->
+    Inv wd (st_fs s') /\
+    (forall p, inside wd p = false -> view_at (st_fs s') p = view_at (st_fs s) p).
+Proof. exact pushes_blobs_keeps. Qed.
+Print Assumptions C11_blobs_confined.
+
+(* a title that lexically resolves outside is rejected with an error and nothing changes
+   (for every configuration, repaired or not) *)
+Theorem C11_outside_title_rejected :
+  forall (g : cfg) (wd cwd : path) (s : store) (o : pushop),
+    inside wd (lex_loc wd (push_title o)) = false -> push_title o <> [] ->
+    push g wd cwd s o = (s, false).
+Proof. exact push_outside_title. Qed.
+Print Assumptions C11_outside_title_rejected.
+
+(* an archive with an entry whose name lexically resolves outside is rejected with an error *)
+Theorem C11_outside_entry_rejected :
+  forall (g : cfg) (wd cwd : path) (s : store) (title : str) (es1 : list entry) (e : entry) (es2 : list entry),
+    title <> [] ->
+    inside wd (lex_loc wd (entry_name e)) = false ->
+    snd (push g wd cwd s (PDir title (es1 ++ e :: es2))) = false.
+Proof. exact push_outside_entry. Qed.
+Print Assumptions C11_outside_entry_rejected.
+
+(* and the entry itself has no effect, whatever the state of the tree *)
+Theorem C11_outside_entry_no_effect :
+  forall (g : cfg) (wd cwd : path) (title : str) (f : fsys) (e : entry),
+    inside wd (lex_loc wd title) = true ->
+    inside wd (lex_loc wd (entry_name e)) = false ->
+    extract_entry g cwd (lex_loc wd title) title f e = None.
+Proof. exact entry_outside_rejected. Qed.
+Print Assumptions C11_outside_entry_no_effect.
+
+(* the code before the repairs violates the statement; each repair is necessary *)
+Theorem C11_prefix_refuted : escapes cfg_prefix.
+Proof. exact prefix_escapes. Qed.
+Print Assumptions C11_prefix_refuted.
+
+Theorem C11_prefix_refuted_hardlink_cwd : escapes (mkCfg false true true true true).
+Proof. exact refuted_hardlink_cwd. Qed.
+Print Assumptions C11_prefix_refuted_hardlink_cwd.
+
+Theorem C11_prefix_refuted_raw_link_target : escapes (mkCfg true false true true true).
+Proof. exact refuted_raw_target. Qed.
+Print Assumptions C11_prefix_refuted_raw_link_target.
+
+Theorem C11_prefix_refuted_unpack_through_link : escapes (mkCfg true true false true true).
+Proof. exact refuted_title_through_link. Qed.
+Print Assumptions C11_prefix_refuted_unpack_through_link.
+
+Theorem C11_prefix_refuted_raw_absolute_title : escapes (mkCfg true true true false true).
+Proof. exact refuted_abs_title. Qed.
+Print Assumptions C11_prefix_refuted_raw_absolute_title.
+
+Theorem C11_prefix_refuted_hardlink_to_symlink : escapes (mkCfg true true true true false).
+Proof. exact refuted_hardlink_symlink. Qed.
+Print Assumptions C11_prefix_refuted_hardlink_to_symlink.
+
+(* the hypotheses are satisfiable and the repaired store still accepts ordinary archives *)
+Example C11_example_inv : Inv wd0 fs0.
+Proof. exact inv_fs0. Qed.
+
+Example C11_example_ordinary :
+  Forall (push_ok wd0) os_ordinary /\
+  snd (run0 cfg_fixed os_ordinary) = [true; true; true] /\
+  view_at (fst (run0 cfg_fixed os_ordinary)) [b "r"; b "w"; b "t"; b "a"; b "b"; b "f"] = VFile 9%N /\
+  view_at (fst (run0 cfg_fixed os_ordinary)) [b "r"; b "w"; b "old"] = VFile 11%N.
+Proof. exact ordinary_ok. Qed.
+
+Example C11_example_attacks_confined :
+  forall os, In os [os_hardlink_cwd; os_raw_target; os_title_through_link; os_abs_title; os_hardlink_symlink] ->
+  forall p, inside wd0 p = false -> view_at (fst (run0 cfg_fixed os)) p = view_at fs0 p.
+Proof. exact attacks_confined_fixed. Qed.
